@@ -8,6 +8,7 @@ use pmtiles2::{Compression, Directory, Entry, PMTiles, TileType};
 mod faulty;
 mod spec;
 mod witness;
+mod c14;
 pub use faulty::FaultyStream;
 
 fn quiet<T>(f: impl FnOnce() -> T) -> std::thread::Result<T> {
@@ -190,7 +191,7 @@ fn main() {
                 "C05" => witness::c05(), "C19" => witness::c19(), "C04" => witness::c04(), "C10" => witness::c10(), "C16" => witness::c16(),
                 "C01" | "C02" | "C18" => witness::c01_c02_c18(), "C03" | "C11" | "C20x" => witness::c03_c11_c20(), "C06" => witness::c06(),
                 "C07" => witness::c07(), "C09" => witness::c09(), "C15" => witness::c15(), "C17" => witness::c17(), "C13" => witness::c13(),
-                "C12" => witness::c12(), "C20" => witness::c20(),
+                "C12" => witness::c12(), "C20" => witness::c20(), "C14" => c14::c14(),
                 _ => Err(format!("NO-SEARCH {id}")),
             });
             // a panic of the library on an input of the property's domain is a failing input
